@@ -96,6 +96,16 @@ CLAIMS = {
             "Trusted: engine A/B, sa/refs/sequencer_model.py; SequenceStart.value is a pure read.",
             "abstract interpretation per operation vs reference model + who-may-write rule",
             "A+B", "DESIGN.md section 4, C13"),
+    "C14": ("other",
+            "Structural/effect analysis of ProtocolEnumMeta.__call__: the member lookup is delegated to EnumType.__call__ "
+            "inside a try catching ValueError (or is a None-tested member-table lookup), binds against the running "
+            "interpreter's signature, its result is returned unmodified; the fallback is int.__new__(cls, value) named "
+            "Unrecognized(int(value)) with _value_ = value; no member table is written and nothing is cached across enum "
+            "types; members are never tested by truthiness; generated enums are IntEnum classes with this metaclass. "
+            "Does NOT decide stdlib semantics (EnumType.__call__ behaviour, int equality/hash).",
+            "Trusted: enum.py of the running interpreter, engine A. Unknown state-keeping idioms give ANALYSIS-ERROR.",
+            "AST effect/ownership rules on one method + signature binding against parsed stdlib source",
+            "A", "DESIGN.md section 4, C14"),
 }
 
 NOT_YET = "check not built yet in this session (engine stage pending, see DESIGN.md section 8); no proxy is substituted"
